@@ -15,12 +15,12 @@ import (
 func init() { props["C14"] = runC14 }
 
 // supplied values for typed reusable-workflow inputs with the type the value has
-var c14Values = []struct{ text, ty string }{
-	{"1", "number"}, {"1.5e3", "number"}, {"abc", "string"}, {"true", "bool"}, {"null", "null"}, {"'1'", "number"},
-	{"${{ 1 }}", "number"}, {"${{ 'str' }}", "string"}, {"${{ true }}", "bool"}, {"${{ github.sha }}", "string"},
-	{"${{ fromJSON('1') }}", "any"}, {"' ${{ 0x10 }} '", "number"},
-	{"v${{ 42 }}", "string"}, {"${{ 1 }}${{ 2 }}", "string"}, {"enabled=${{ true }}", "string"}, {"${{ 7 }} items", "string"},
-	{"${{ fromJSON('1') }}x", "string"},
+var c14Values = []struct{ text, ty, shape string }{
+	{"1", "number", "number"}, {"1.5e3", "number", "number"}, {"abc", "string", "other"}, {"true", "bool", "bool"}, {"null", "null", "null"}, {"'1'", "number", "number"},
+	{"${{ 1 }}", "number", "whole:number"}, {"${{ 'str' }}", "string", "whole:string"}, {"${{ true }}", "bool", "whole:bool"}, {"${{ github.sha }}", "string", "whole:string"},
+	{"${{ fromJSON('1') }}", "any", "whole:any"}, {"' ${{ 0x10 }} '", "number", "whole:number"}, {"${{ null }}", "null", "whole:null"},
+	{"v${{ 42 }}", "string", "embedded"}, {"${{ 1 }}${{ 2 }}", "string", "several"}, {"enabled=${{ true }}", "string", "embedded"}, {"${{ 7 }} items", "string", "embedded"},
+	{"${{ fromJSON('1') }}x", "string", "embedded"},
 }
 
 var (
@@ -73,6 +73,17 @@ func canonCalls(errs []*actionlint.Error) (string, bool) {
 func runC14(c *ctx, r *Report) error {
 	rng := rand.New(rand.NewSource(c.seed))
 	var b batch
+	// AL.Props.C14 / C14Calls / C14Type: the model reports an input / secret exactly when the callee's interface says so
+	// (undefined, missing-required, type not assignable). A differing report is the implementation departing from that.
+	b.judge = func(cs Case) (string, string) {
+		switch {
+		case cs.Op == "calltype":
+			return "typed-input", "a supplied value is reported against the declared input type differently from the rule (reported=" + cs.Impl + ", rule=" + cs.Model + ")"
+		case strings.HasPrefix(cs.Op, "calls "):
+			return "interface-check-differs:" + strings.Fields(cs.Op)[1], "undefined / missing input or secret reports (" + cs.Impl + ") differ from the callee's declared interface (" + cs.Model + ")"
+		}
+		return "", ""
+	}
 	nLocal := 60
 	if !c.quick {
 		nLocal = 1500
@@ -308,6 +319,12 @@ func runC14(c *ctx, r *Report) error {
 		var cw strings.Builder
 		cw.WriteString("on: push\njobs:\n  call:\n    uses: ./.github/workflows/reusable.yml\n")
 		typeErrs := 0
+		type typedIn struct {
+			line        int
+			decl, shape string
+			text        string
+		}
+		var typed []typedIn
 		if len(with) > 0 {
 			cw.WriteString("    with:\n")
 			for _, k := range with {
@@ -318,6 +335,7 @@ func runC14(c *ctx, r *Report) error {
 						// placeholder's type, anything else (text around a placeholder, several placeholders) a string
 						v := c14Values[rng.Intn(len(c14Values))]
 						val = v.text
+						typed = append(typed, typedIn{strings.Count(cw.String(), "\n") + 1, map[string]string{"string": "string", "number": "number", "boolean": "bool"}[d.typ], v.shape, k + ": " + v.text})
 						switch d.typ {
 						case "number": // number ← number, any
 							if v.ty != "number" && v.ty != "any" {
@@ -440,6 +458,17 @@ func runC14(c *ctx, r *Report) error {
 			if undefProbe[probeBase+1+len(probes)+k] != !declared {
 				r.finding("reusable-workflow-outputs", fmt.Sprintf("needs.call.outputs.%s: reported=%v declared=%v", o, undefProbe[probeBase+1+len(probes)+k], declared), Case{Op: "lint-local", Input: desc})
 			}
+		}
+		// per input: reported (at the value's line) vs the model's AL.CallType.reported (theorems AL.Props.C14Type)
+		for _, ti := range typed {
+			rep := "0"
+			for _, e := range errs {
+				if e.Line == ti.line && e.Kind == "expression" && strings.Contains(e.Message, "is typed as") {
+					rep = "1"
+				}
+			}
+			b.add("calltype "+ti.decl+" "+ti.shape, rep, Case{Op: "calltype", Input: map[string]string{"declared": ti.decl, "supplied": ti.text, "caller.yml": src}})
+			r.hist("typed-input:" + ti.shape)
 		}
 		if gotTypeErrs != typeErrs {
 			var ms []string
